@@ -73,16 +73,21 @@ impl Check for HistCheck {
         // cannot trip over a different property's listed defect first
         let f = vcore::Findings::load_default();
         let own: BTreeSet<String> = f.closed_gates(self.prop).into_iter().collect();
-        let inherited: BTreeSet<String> = f.closed_gates("C05").into_iter().filter(|g| !own.contains(g)).collect();
+        let inherited: BTreeSet<String> = SHARED.iter().flat_map(|p| f.closed_gates(p)).filter(|g| !own.contains(g)).collect();
         self.go(case, inherited)
     }
 }
 
 /// gates of the property itself plus the ones inherited from the shared DML findings (C05)
+/// properties whose listed findings describe defects any history can run into
+pub const SHARED: [&str; 3] = ["C05", "C07", "C04"];
+
 pub fn gates_for(prop: &str) -> BTreeSet<String> {
     let f = vcore::Findings::load_default();
     let mut g: BTreeSet<String> = f.closed_gates(prop).into_iter().collect();
-    g.extend(f.closed_gates("C05"));
+    for p in SHARED {
+        g.extend(f.closed_gates(p));
+    }
     g
 }
 
@@ -177,4 +182,26 @@ pub fn c04(tier: Tier, replay: Option<String>) -> i32 {
     let pb = Profile { max_ops: 60, lifecycle: 4, ddl: 1, dml: 12, big_keys: true, max_insert_rows: 12, allow_auto_inc: true, ..Profile::default() };
     let cases = tier.pick(2500, 100_000);
     drive_hist(&ctx, &check, move || case_strategy(p.clone(), Some(pb.clone()), true), cases)
+}
+
+// ----------------------------------------------------------------------------------------- C09
+
+pub fn c09(tier: Tier, replay: Option<String>) -> i32 {
+    let check = HistCheck {
+        prop: "C09",
+        oracles: Oracles { model: true, outcome_only: true, ..Default::default() },
+        gates: gates_for("C09"),
+        nontrivial: |info, _| info.errors > 0 && info.executed.iter().filter(|k| matches!(**k, "INSERT" | "UPDATE")).count() > info.errors,
+    };
+    if let Some(p) = replay {
+        return vcore::replay_file("C09", &check, &p);
+    }
+    let ctx = Ctx::new("C09", tier, "exploration");
+    ctx.set_rule(
+        "E-hist histories over schemas with PRIMARY KEY / UNIQUE (single column), NOT NULL, column CHECKs (comparisons with = <> < <= > >= joined by AND/OR over numeric and text          columns) and FOREIGN KEYs to the first table's integer key (NO ACTION / RESTRICT / CASCADE); key updates, delete-then-reinsert of the same key, parent deletes, transactions.          Oracle (both directions): a write is accepted iff the relational model says the resulting state satisfies every declared constraint (CHECK passes unless FALSE under          three-valued logic). Non-trivial = the history contains at least one rejected and one accepted INSERT/UPDATE; distinct by hash of schema+ops.",
+    );
+    ctx.assume("NULL primary keys, statements whose verdict depends on row-at-a-time vs end-of-statement checking, TRUNCATE/DROP of FK parents and ON DELETE SET NULL (documented as not implemented by its error message) are not generated");
+    let p = Profile { max_tables: 3, max_ops: 30, txn: 2, dml: 12, truncate: 1, allow_check: true, allow_fk: true, ..Profile::default() };
+    let cases = tier.pick(3000, 120_000);
+    drive_hist(&ctx, &check, move || case_strategy(p.clone(), None, false), cases)
 }
